@@ -124,3 +124,32 @@ Fixpoint dmatch (r : cre) (s : list N) : bool :=
   match s with [] => nullable r | c :: s' => dmatch (deriv c r) s' end.
 
 Definition dmatch_re (r : re) (s : list N) : bool := dmatch (core r) s.
+
+(** ** general categories (XML Schema Part 2, F.1.1 "Category Escapes")
+    The 30 general categories in the numbering of the Unicode character database / ICU UCharCategory, with their
+    two-letter names; the one-letter escape \p{X} is the union of the categories whose name starts with X.
+    Which category a code point has is a parameter ([catf], from the Unicode tables). *)
+Definition std_cat_names : list (list N) :=
+  [[67; 110]; [76; 117]; [76; 108]; [76; 116]; [76; 109]; [76; 111]; [77; 110]; [77; 101]; [77; 99]; [78; 100];
+   [78; 108]; [78; 111]; [90; 115]; [90; 108]; [90; 112]; [67; 99]; [67; 102]; [67; 111]; [67; 115]; [80; 100];
+   [80; 115]; [80; 101]; [80; 99]; [80; 111]; [83; 109]; [83; 99]; [83; 107]; [83; 111]; [80; 105]; [80; 102]].
+   (* Cn Lu Ll Lt Lm Lo Mn Me Mc Nd Nl No Zs Zl Zp Cc Cf Co Cs Pd Ps Pe Pc Po Sm Sc Sk So Pi Pf *)
+Definition major_names : list N := [76; 77; 78; 90; 67; 80; 83].     (* L M N Z C P S *)
+
+Definition major_of_cat (k : N) : N := match nth (N.to_nat k) std_cat_names [] with c :: _ => c | [] => 0 end.
+
+(** [spec_cat_pred idx k]: does category [k] belong to the escape number [idx] (0..29 two-letter, 30..36 one-letter)? *)
+Definition spec_cat_pred (idx k : N) : bool :=
+  if idx <? 30 then k =? idx else major_of_cat k =? nth (N.to_nat (idx - 30)) major_names 0.
+Definition spec_cat_mem (catf : N -> N) (idx c : N) : bool := spec_cat_pred idx (catf c).
+
+(** \w = [#x0000-#x10FFFF]-[\p{P}\p{Z}\p{C}],  \d = \p{Nd} *)
+Definition spec_word_pred (k : N) : bool :=
+  let m := major_of_cat k in negb ((m =? 80) || (m =? 90) || (m =? 67)).
+Definition spec_digit_pred (k : N) : bool := k =? 9.
+
+(** the category map as a run-length list (start, end, category); 0 = Cn outside the map *)
+Definition run_rng (r : N * N * N) : N * N := (fst (fst r), snd (fst r)).
+Definition run_cat (r : N * N * N) : N := snd r.
+Definition cat_of (rle : list (N * N * N)) (c : N) : N :=
+  match find (fun r => (fst (run_rng r) <=? c) && (c <=? snd (run_rng r))) rle with Some r => run_cat r | None => 0 end.
